@@ -238,3 +238,41 @@ def run(ctx):
     g = pf.gate_edges(lambda d, v, vals: d == ('discr', ('param', 4)) and v != 1 and not (v is None and 1 not in vals and False))
     tcb_none = pf.gate_edges(lambda d, v, vals: isinstance(d, tuple) and d[0] == 'discr' and peel(d[1]) == ('param', 4) and ((v is None and vals == [1]) or v == 0))
     rep.check(r4, bool(tcb_none) and not pf.must_pass(tcb_none, dc), 'datagram-only', 'DNS parsing happens only when no control block was passed (datagram): %s' % (bool(tcb_none) and not pf.must_pass(tcb_none, dc)))
+
+    r5 = rep.rule('C14-R5', 'the converse and integrity of the answer: an IN/A question is never left unanswered; on the IPv4 arm the RDATA is always the destination octets; proto::repl returns the bytes produced by DNSPacket::repl unmodified', floor=3)
+    from rules import silence
+    silence.run_for(ctx, r5, ['<proto::dns::query::DNSQuery as proto::dissector::MPacket>::repl'])
+    # empty RDATA only on the IPv6 / None arms of client_info.ip.dst
+    empties = []
+    for bi, blk in enumerate(qr.blocks):
+        t = blk['term']
+        if t['k'] == 'call' and re.search(r'Vec::<[^>]*>::new$', t['callee']) and not blk['cleanup']:
+            # does it feed rdata?
+            empties.append(bi)
+    ipsw = []
+    for bi in range(qr.n):
+        se = qr.switch_edges(bi)
+        if se and not qr.blocks[bi]['cleanup'] and isinstance(se[0], tuple) and se[0][0] == 'discr' and 'ip.dst' in short(se[0]):
+            ipsw.append((bi, se))
+    v4edges = []
+    for bi, se in ipsw:
+        if short(se[0]).startswith('discr(entry:(*arg3.ip.dst as Some).0'):
+            v4edges += [(bi, s_) for (s_, v) in se[1] if v == 0]
+    okr = bool(v4edges)
+    if okr:
+        for (sb, s_) in v4edges:
+            r_ = qr.reachable(s_)
+            # from the V4 edge no Vec::new() that ends up as rdata may be reachable: the only Vec::new reachable are for other fields
+            rd = [b for b in empties if b in r_ and any('rdata' in short(qr.lv(st['lhs'], (b2, i))) for b2 in qr.reachable(b) for i, st in enumerate(qr.blocks[b2]['stmts']) if st['rv']['k'] == 'use' and st['rv']['a'].get('k') == 'move' and st['rv']['a']['place'] == qr.blocks[b]['term']['dest'] and st['lhs']['p'])]
+            if rd:
+                okr = False
+    rep.check(r5, okr, 'rdata:ipv4-arm-never-empty', 'on the IPv4 arm of client_info.ip.dst no empty RDATA can be produced: %s' % okr)
+    okret = False
+    for bi, b in enumerate(pf.blocks):
+        for i, st in enumerate(b['stmts']):
+            if st['rv']['k'] == 'agg' and st['rv'].get('adt') == 'std::option::Option' and st['rv'].get('variant') == 'Some' and not b['cleanup']:
+                v = pf._through(pf.rvalue(st['rv'], (bi, i)), (bi, i), 0)
+                if calls_in(v, r'DNSPacket as proto::dissector::MPacket>::repl$'):
+                    inner = peel(v[2][0], unwraps=False)
+                    okret = isinstance(inner, tuple) and inner[0] == 'field' and not any(isinstance(x, tuple) and x[0] in ('modby', 'phi') for x in walk(inner))
+    rep.check(r5, okret, 'proto::repl:dns-reply-unmodified', 'the datagram reply is exactly the value returned by DNSPacket::repl: %s' % okret)
